@@ -55,6 +55,9 @@ type handler1 struct {
 	transactions     *transactions.TransactionStore
 	// The topicID sequence has wrapped: all TopicIDs have been used.
 	topicIDsExhausted bool
+	// Serializes sending to the client (incl. pktBuffer manipulation) with
+	// the changes of the client's sleep state.
+	snSendLock sync.Mutex
 	// for testing
 	mockupDialFunc func() net.Conn
 }
@@ -533,9 +536,11 @@ func (h *handler1) handleConnect(ctx context.Context, snConnect *snPkts1.Connect
 	// signalizes the client's return to the active state, see
 	// doc/specification-interpretation.md.
 	if state := h.state.Get(); state == util.StateAwake || state == util.StateAsleep {
+		h.snSendLock.Lock()
+		defer h.snSendLock.Unlock()
 		h.setState(util.StateActive)
 		reply := snPkts1.NewConnack(snPkts1.RC_ACCEPTED)
-		if err := h.snSend(reply); err != nil {
+		if err := h.snSendLocked(reply); err != nil {
 			return err
 		}
 		return h.flushPktBuffer()
@@ -785,12 +790,14 @@ func (h *handler1) handleMqttSn(ctx context.Context, pkt snPkts.Packet) error {
 	// Client PING transaction (going AWAKE or just a keepalive).
 	case *snPkts1.Pingreq:
 		if h.state.Get() == util.StateAsleep {
+			h.snSendLock.Lock()
+			defer h.snSendLock.Unlock()
 			// Must be set before snSend otherwise the packets will be queued...
 			h.setState(util.StateAwake)
 			if err := h.flushPktBuffer(); err != nil {
 				return err
 			}
-			if err := h.snSend(snPkts1.NewPingresp()); err != nil {
+			if err := h.snSendLocked(snPkts1.NewPingresp()); err != nil {
 				return err
 			}
 			// The client goes back to sleep after it receives PINGRESP.
@@ -823,11 +830,13 @@ func (h *handler1) handleMqttSn(ctx context.Context, pkt snPkts.Packet) error {
 			// A client which is already asleep is awake now to prolong its
 			// sleep: the reply must not be queued (and the packets already
 			// queued for the client must be kept).
+			h.snSendLock.Lock()
+			defer h.snSendLock.Unlock()
 			if h.state.Get() == util.StateAsleep {
 				h.setState(util.StateAwake)
 			}
 			m2 := snPkts1.NewDisconnect(0)
-			if err := h.snSend(m2); err != nil {
+			if err := h.snSendLocked(m2); err != nil {
 				return err
 			}
 			// Must be set after snSend otherwise the packet will be queued...
@@ -901,9 +910,11 @@ func (h *handler1) startSleepPinger(ctx context.Context) context.CancelFunc {
 }
 
 // Send the packets buffered for a sleeping client.
+//
+// You must acquire h.snSendLock before calling this function!
 func (h *handler1) flushPktBuffer() error {
 	for _, pkt := range h.pktBuffer {
-		if err := h.snSend(pkt); err != nil {
+		if err := h.snSendLocked(pkt); err != nil {
 			return err
 		}
 	}
@@ -912,6 +923,14 @@ func (h *handler1) flushPktBuffer() error {
 }
 
 func (h *handler1) snSend(pkt snPkts.Packet) error {
+	h.snSendLock.Lock()
+	defer h.snSendLock.Unlock()
+
+	return h.snSendLocked(pkt)
+}
+
+// You must acquire h.snSendLock before calling this function!
+func (h *handler1) snSendLocked(pkt snPkts.Packet) error {
 	if h.state.Get() == util.StateAsleep {
 		h.log.Debug("Queued %v", pkt)
 		h.pktBuffer = append(h.pktBuffer, pkt)
